@@ -229,3 +229,46 @@ class MockerReplace:
 
     # NOT proved (solver timeout on the sequence update at a symbolic position): that every OTHER patch of the queue stays
     # where it was.
+
+
+def endpoint_unpatched(m, endpoint):
+    """no patch is registered for the endpoint: no map, or an empty one (left behind by a failed remove())"""
+    ep = member(m._matches, endpoint)
+    return is_absent(ep) or len(ep) == 0
+
+
+@contract('pjrpc.client.integrations.pytest:PjRpcMocker._on_request', props=['C20'])
+class MockerOnRequest:
+    """C20: an endpoint without patches is passed through to the real transport (once, same arguments, its answer
+    returned unchanged) or refused with ConnectionRefusedError, as configured - and nothing else happens."""
+    types = {'self': 'pjrpc.client.integrations.pytest:PjRpcMocker', 'origin_self': '=UserClientObject', 'request_text': 'str',
+             'is_notification': 'bool', 'kwargs': '=dict'}
+    raises_only = ('ConnectionRefusedError', 'Exception')
+    modifies = ('$trace', '$containers')
+    cross_check = False
+    loop0 = {'ghosts': ['trace'], 'modifies': ['$containers']}
+    never_returns_ok = True
+
+    def requires_started(self, origin_self, request_text, is_notification, kwargs):
+        # scope of this contract: requests to an endpoint WITHOUT patches (the patched branches - single request and
+        # element-wise batch - hand each element to _match_request, which is under its own contract; their composition
+        # needs the well-formedness of every queue of the endpoint as an invariant and is not proved here)
+        return (self._patcher is not None and not same(self._matches, self._calls)
+                and endpoint_unpatched(self, origin_self._endpoint))
+
+    def invariant0_true(self, origin_self):
+        return True
+
+    def raises_ConnectionRefusedError_iff(self, origin_self, request_text, is_notification, kwargs):
+        return endpoint_unpatched(self, origin_self._endpoint) and not self._passthrough
+
+    def ensures_on_ConnectionRefusedError(self, origin_self, request_text, is_notification, kwargs, exc):
+        return tlen() == old(tlen())
+
+    def ensures_passthrough(self, origin_self, request_text, is_notification, kwargs, result):
+        if not (old(endpoint_unpatched(self, origin_self._endpoint)) and self._passthrough):
+            return True
+        b = old(tlen())
+        return (tlen() == b + 1 and ev_kind(b) == 'call:temp_original' and same(ev_callee(b), self._patcher)
+                and len(ev_args(b)) == 3 and same(ev_args(b)[0], origin_self) and same(ev_args(b)[1], request_text)
+                and same(ev_args(b)[2], is_notification) and dict_eq(ev_kwargs(b), kwargs) and same(result, ev_value(b)))
